@@ -59,7 +59,7 @@ fn sequence(mut idx: u64, l: u32) -> Vec<Behaviour> {
     out
 }
 
-const SPECIALS: u64 = 12;
+const SPECIALS: u64 = 14;
 
 pub fn plan(p: &EpParams) -> Plan {
     let l = max_len(p);
@@ -67,7 +67,7 @@ pub fn plan(p: &EpParams) -> Plan {
         episodes: n_sequences(l) * 2 + SPECIALS,
         exhaustive: true,
         rule: format!(
-            "fault sequences: every per-attempt endpoint behaviour sequence of length <= {} over {} behaviours (200 201 202 204 102 100 203 205 301 400 404 429 500 503 reset-after-request reset-on-accept answer-{}s-late) followed by 200, once with 1 message and once with 3 messages (sequence rotated per message), plus {} special episodes (closed port first, deletion while failing, always-late endpoint, five episodes in which a unary puller competes with the push rounds for the same subscription, and two in which the endpoint never sends a final answer six times in a row). Push interval {} s, ack deadline {} s. Non-trivial: >=1 POST answered by each behaviour of the sequence. Distinct: the behaviour sequence x message count.",
+            "fault sequences: every per-attempt endpoint behaviour sequence of length <= {} over {} behaviours (200 201 202 204 102 100 203 205 301 400 404 429 500 503 reset-after-request reset-on-accept answer-{}s-late) followed by 200, once with 1 message and once with 3 messages (sequence rotated per message), plus {} special episodes (closed port first, deletion while failing, always-late endpoint, five episodes in which a unary puller competes with the push rounds for the same subscription, two in which the endpoint never sends a final answer six times in a row, and two in which it accepts after 20-25 s, well inside the ack deadline). Push interval {} s, ack deadline {} s. Non-trivial: >=1 POST answered by each behaviour of the sequence. Distinct: the behaviour sequence x message count.",
             l, alphabet().len(), LATE_S, SPECIALS, INTERVAL_S, DEADLINE_S
         ),
     }
@@ -172,6 +172,12 @@ async fn episode(p: &EpParams) -> EpReport {
         // final answer, six times in a row: the message must keep being POSTed after every deadline
         if matches!(special, Some(10) | Some(11)) {
             e.set_script("p0", vec![Behaviour::Status(100); 6]);
+        }
+        // specials 12/13: the endpoint accepts, but only after 20 s (well inside the 60 s ack
+        // deadline): one POST per message, nothing after the answer
+        if matches!(special, Some(12) | Some(13)) {
+            e.set_script("p0", vec![Behaviour::Late(20, 200); 6]);
+            e.set_script("p1", vec![Behaviour::Late(25, 204); 6]);
         }
         // special 4: everything is late for ever (never accepted in time)
         if special == Some(4) {
@@ -417,7 +423,7 @@ fn sorted(m: &HashMap<String, String>) -> BTreeMap<&String, &String> {
 /// The answer was an accepted status, given well within the ack deadline.
 fn accepted_in_time(r: &PostRec) -> bool {
     match (&r.behaviour, r.vt_answer) {
-        (Behaviour::Status(s), Some(a)) if matches!(s, 102 | 200 | 201 | 202 | 204) => a.saturating_sub(r.vt_begin) < (DEADLINE_S - MARGIN_S) * SEC,
+        (Behaviour::Status(s), Some(a)) | (Behaviour::Late(_, s), Some(a)) if matches!(s, 102 | 200 | 201 | 202 | 204) => a.saturating_sub(r.vt_begin) < (DEADLINE_S - MARGIN_S) * SEC,
         _ => false,
     }
 }
